@@ -54,6 +54,11 @@ class Z3Ctx:
                 # range (-pi, pi] with rational enclosures of pi
                 cs.append(self.zv(name) > -z3.RealVal("3.1415926535897933"))
                 cs.append(self.zv(name) <= z3.RealVal("3.1415926535897933"))
+                # |A| >= |sin A| = |y|/r  and  sign(A) = sign(y)
+                y, x = atom.args
+                A = self.zv(name)
+                cs.append(A * A * self.expr(x * x + y * y) >= self.expr(y * y))
+                cs.append(A * self.expr(y) >= 0)
         cs.extend(extra_facts)
         return cs
 
